@@ -173,6 +173,18 @@ func (e *Engine) hostileFor(s *Struct, gb []byte, fields []tlv, rng *rand.Rand) 
 			ins("unknown-map-count:negative", g, append(wfHead(8, g.tag), wfInt(int64(-1-rng.Intn(5)), 0)...))
 			g = gaps[rng.Intn(len(gaps))]
 			ins("unknown-string4-len:huge", g, append(wfHead(7, g.tag), 0xff, 0xff, 0xff, byte(0xf0+rng.Intn(16))))
+			// a skipped LIST / MAP announcing 2^31-1 elements with the input ending inside it (alone and
+			// nested three deep): the skipper must stop at the end of the input, not count down
+			g = gaps[rng.Intn(len(gaps))]
+			hugeList := append(wfHead(9, g.tag), wfInt(0x7fffffff, 0)...)
+			add("unknown-list-count:huge-truncated", append(append([]byte{}, gb[:g.at]...), hugeList...))
+			nested := append([]byte{}, hugeList...)
+			for k := 0; k < 2; k++ {
+				nested = append(nested, append(wfHead(9, 0), wfInt(0x7fffffff, 0)...)...)
+			}
+			add("unknown-list-count:huge-nested-truncated", append(append([]byte{}, gb[:g.at]...), nested...))
+			hugeMap := append(append(wfHead(8, g.tag), wfInt(0x3fffffff, 0)...), append(wfHead(8, 0), wfInt(0x3fffffff, 0)...)...)
+			add("unknown-map-count:huge-nested-truncated", append(append([]byte{}, gb[:g.at]...), hugeMap...))
 			g = gaps[rng.Intn(len(gaps))]
 			inner := append(append(wfHead(13, 3), wfHead(0, 0)...), wfInt(int64(-1-rng.Intn(9)), 0)...)
 			ins("unknown-struct-with-bad-simplelist", g, append(append(wfHead(10, g.tag), inner...), wfHead(11, 0)...))
